@@ -59,6 +59,8 @@ class WalletProp(BaseProp):
             with rec.installed():
                 try:
                     w = build_wallet(case["w"])
+                    for (pa, plo, phi) in case.get("pre", []):                  # earlier requests on the same wallet object
+                        w.generate(account=pa, interval=(plo, phi))
                     data = w.generate(account=case["account"], interval=(case["lo"], case["hi"]))
                     jr = json.loads(w.json(data=data)) == json.loads(json.dumps(data)) and json.loads(w.json(data=data, indent=4)) == json.loads(json.dumps(data))
                 except Exception:
